@@ -326,3 +326,19 @@ Proof.
   destruct (charts it lts ltg cfg (fmt_date start) (fmt_date end_) (group rs) (map r_x rs)) eqn:E; [discriminate|].
   exfalso. exact (charts_never_panics _ _ _ _ _ _ _ _ E).
 Qed.
+
+(* the request context does not change what a /chart/ request does: in
+   particular a chart object produced under a cancelled or expired context
+   still counts every merged report of the range *)
+Theorem chart_independent_of_request_context it lts ltg cfg read start end_ c :
+  handle_chart_ctx it lts ltg c cfg read start end_ = handle_chart it lts ltg cfg read start end_ /\
+  forall name cd, iter_ok it -> cfg_ok lts ltg cfg ->
+    handle_chart_ctx it lts ltg c cfg read start end_ = ChartOk name cd ->
+    cd_num cd = length (days_reports read start (Z.to_nat (end_ - start + 1))) /\
+    chartdata_spec lts ltg cfg (fmt_date start) (fmt_date end_)
+                   (days_reports read start (Z.to_nat (end_ - start + 1))) cd.
+Proof.
+  split; [reflexivity|]. intros name cd Hit Hcfg H. unfold handle_chart_ctx in H.
+  destruct (handle_chart_ok_spec it lts ltg cfg read start end_ name cd Hit Hcfg H) as [_ [_ [_ Hs]]].
+  split; [apply Hs | exact Hs].
+Qed.
